@@ -230,10 +230,17 @@ def run_pure(ctx):
     from core_codemods.sonar.sonar_fix_math_isclose import FixMathIsCloseSonarTransformer
     from core_codemods.tempfile_mktemp import TempfileMktempTransformer
 
+    from libcst.codemod import CodemodContext
+    from codemodder.file_context import FileContext as _FC
+
     def harness_class(base):
+        """the real class, built by its real constructor; only node_position is replaced (the nodes are synthetic)"""
         class H(base):
             def __init__(self, results, excl, incl, pm):
-                UtilsMixin.__init__(self, results, excl, incl)
+                if base is UtilsMixin:
+                    UtilsMixin.__init__(self, results, excl, incl)
+                else:
+                    base.__init__(self, CodemodContext(), results, _FC(Path("/proj"), Path("/proj/a.py"), excl, incl, results))
                 self._pm = pm
 
             def node_position(self, node):
@@ -330,6 +337,14 @@ def run_process_file(ctx, I, n):
 
     RULES = ["python:S1", "python:S2", "pythonsecurity:S3", "x.y.r4"]
     FILES = ["a.py", "pkg/a.py", "pkg/b.py", "c.py"]
+    # a real CodemodExecutionContext over a real directory holding FILES (no stub: any attribute the code reads exists)
+    from codemodder.context import CodemodExecutionContext
+    from codemodder.project_analysis.python_repo_manager import PythonRepoManager
+    from codemodder.providers import load_providers
+    from codemodder.registry import load_registered_codemods
+    root = ctx.scratch / "pf_proj"
+    core.write_tree(root, {f: "x = 1\n" for f in FILES})
+    real_context = CodemodExecutionContext(root, True, False, load_registered_codemods(), load_providers(), PythonRepoManager(root), [], [], {}, 1)
     cases, meta = [], []
     for i in range(n):
         rules = rng.sample(RULES, rng.choice([1, 1, 2]))
@@ -357,9 +372,7 @@ def run_process_file(ctx, I, n):
         cm = SonarCodemod(metadata=Metadata(name="probe", summary="s", review_guidance=ReviewGuidance.MERGE_AFTER_REVIEW, description="d",
                                             tool=ToolMetadata(name="Sonar", rules=[ToolRule(id=r, name=r) for r in rules])),
                           transformer=rec, detector=SonarDetector(), requested_rules=list(rules))
-        root = Path("/proj")
-        cx = SimpleNamespace(directory=root, path_exclude=[], path_include=[], files_to_analyze=[root / f for f in FILES],
-                             filter_paths=lambda ps: list(ps))
+        cx = real_context
         if allr is None:
             RS = None
         else:
@@ -371,11 +384,11 @@ def run_process_file(ctx, I, n):
         seen = None
         if invoked and rec.calls[0] is not None:
             seen = [x._ident for x in rec.calls[0]]
-        obs_files = [] if RS is None else [str(p.relative_to(root)) for p in cm.get_files_to_analyze(cx, RS)]
+        obs_files = [] if RS is None else sorted(str(p.relative_to(root)) for p in cm.get_files_to_analyze(cx, RS))
         if fc.results != (rec.calls[0] if invoked else fc.results):
             ctx.mismatch("_process_file", "FileContext.results differs from what the transformer received", {"case": [allr, rules, file]})
         cases.append(cpair(copt(None if allr is None else c_results(allr), "list result"), clist([cstr(r) for r in rules], "str"),
-                           cstr(file), clist([cstr(f) for f in FILES], "str"), cbool(invoked),
+                           cstr(file), clist([cstr(f) for f in sorted(FILES)], "str"), cbool(invoked),
                            copt(None if seen is None else clist([cN(x) for x in seen], "N"), "list N"),
                            clist([cstr(f) for f in obs_files], "str")))
         meta.append((allr, rules, file, invoked, seen, obs_files))
@@ -497,15 +510,24 @@ def e2e_case_term(ctx, t, fn, info, entries, o):
     results = [{"ident": j, "cls": S.RCLASS[t.tool], "rule": e["rule"], "locs": [(e["file"], e["loc"])],
                 "fid": finding_id_for(ctx, t.tool, e)} for j, e in enumerate(open_entries)]
     site_ids = sorted(info["sites"])
-    return ("(mke2e %s %s %s %s %s %s %s %s %s %s %s)" % (
+    return ("(mke2e %s %s %s %s %s %s %s %s %s %s %s %s %s)" % (
         t.ovr, S.RCLASS[t.tool], clist([cstr(t.rule)], "str"), cstr(fn), c_results(results),
         clist([c_node(x) for x in info["tested"]], "node"), clist([c_node(x) for x in info["cands"]], "node"),
         clist([cpair(cN(i), cZ(info["sites"][i]["line"])) for i in site_ids], "N * Z"),
+        cbool(t.lost_when_enclosed), cN(t.entry_span),
         clist([cN(i) for i in info["expected"]], "N"), clist([cN(i) for i in o["rewritten"]], "N"),
         clist([cpair(cZ(c[0]), clist([cstr(x) for x in c[1]], "str")) for c in o["changes"]], "Z * list str")))
 
 
-def classify_sites(t, info, o):
+def classify_sites(t, info, o, model_ok=True):
+    """A known class absorbs a case only if (a) the input has the shape of its witness and (b) the model of the code as
+    written - the object of the `_refuted` theorems - predicts the observation exactly (model_ok)."""
+    if not model_ok:
+        return "kf_site_selection"
+    missing = [i for i in info["expected"] if i not in o["rewritten"]]
+    if t.ovr == "FFuzzyCall" and t.lost_when_enclosed and missing and set(o["rewritten"]) <= set(info["expected"]) and \
+            all(info["sites"][i].get("wrapped") for i in missing):
+        return f"kf_fuzzy_enclosing_call_selected:{t.id.split('/')[-1]}"
     extra = [i for i in o["rewritten"] if i not in info["expected"]]
     rep_lines = {info["sites"][i]["line"] for i in info["expected"]}
     if t.tool == "defectdojo" and extra and all(info["sites"][i]["line"] in rep_lines for i in extra) and \
@@ -514,10 +536,16 @@ def classify_sites(t, info, o):
     return "kf_site_selection"
 
 
-def classify_findings(t, info, o, entries, fn):
+def classify_findings(t, info, o, entries, fn, model_ok=True):
+    if not model_ok:
+        return "kf_change_findings"
     lines = [info["sites"][i]["line"] for i in info["expected"]]
     if len(set(lines)) < len(lines):
         return "kf_same_line_sites"
+    if t.entry_span > 1 and any(info["sites"][i]["line"] + k in lines for i in info["expected"] for k in range(1, t.entry_span)):
+        return f"kf_extra_entry_on_following_site_line:{t.id.split('/')[-1]}"
+    if t.ovr == "FFuzzyCall" and t.acts_on_any_selected and any(info["sites"][i].get("wrapped") for i in info["expected"]):
+        return f"kf_fuzzy_enclosing_call_selected:{t.id.split('/')[-1]}"
     if t.tool == "defectdojo":
         mine = {e["key"]: e for e in entries if e["file"] == fn and e["rule"] == t.rule}
         if any(mine[info["site_key"][i]]["loc"][0] != info["sites"][i]["line"] for i in info["expected"] if info["site_key"].get(i) in mine):
@@ -576,7 +604,29 @@ def job_from_payload(ctx, body, idx):
             "entries": entries, "rf": rf}
 
 
+def check_registry_coverage(ctx):
+    """review A21: the template table is compared with the real registry on every run"""
+    from codemodder.codemods.base_codemod import RemediationCodemod
+    from codemodder.registry import load_registered_codemods
+    registered = {c.id: c for c in load_registered_codemods().codemods if isinstance(c, RemediationCodemod)}
+    have = {t.id for t in S.TEMPLATES}
+    ctx.count("registry:sast_codemods", len(registered))
+    ctx.count("registry:sast_codemods_with_template", len(have & set(registered)))
+    for cid in sorted(set(registered) - have - set(S.NOT_COVERED)):
+        ctx.mismatch("C06 end-to-end coverage", f"registered SAST codemod {cid} has no site template and is not listed in NOT_COVERED",
+                     {"op": "coverage", "codemod": cid})
+    for cid in sorted((have | set(S.NOT_COVERED)) - set(registered)):
+        ctx.mismatch("C06 end-to-end coverage", f"{cid} is in the template table but is not a registered SAST codemod", {"op": "coverage", "codemod": cid})
+    for t in S.TEMPLATES:
+        c = registered.get(t.id)
+        if c is not None and t.rule not in c.requested_rules:
+            ctx.mismatch("C06 end-to-end coverage", f"{t.id}: the template's rule id {t.rule} is not one of the codemod's requested rules "
+                         f"{c.requested_rules}", {"op": "coverage", "codemod": t.id})
+    ctx.notes.append("SAST codemods not exercised end to end (NOT_COVERED): " + "; ".join(f"{k} ({v})" for k, v in sorted(S.NOT_COVERED.items())))
+
+
 def run_e2e(ctx):
+    check_registry_coverage(ctx)
     rng = ctx.rng
     quick = ctx.quick()
     deep = getattr(ctx, "deep", False)
@@ -645,18 +695,21 @@ def run_e2e(ctx):
                     want = sorted((info["sites"][i]["line"], [str(info["site_key"][i])]) for i in info["expected"])
                     got = sorted((c[0], c[1]) for c in of["changes"] if c[0] in lines)
                     if want != got and all(len(c[1]) == 1 for c in of["changes"] if c[0] in lines):
+                        # the class predicts: every entry at a site line carries exactly the rule id
                         cls = "kf_finding_id_is_rule_id" if t.tool == "sonar" and all(
-                            c[1] == [t.rule] for c in of["changes"] if c[0] in lines) else "kf_change_findings"
+                            c[1] == [t.rule] for c in of["changes"] if c[0] in lines) and \
+                            (ctx.tables or {}).get("sonar_finding_id") == "IdIsRuleId" else "kf_change_findings"
                         ctx.violation(cls, f"{t.id} {fn}: change entries {got} do not carry the reported findings {want} "
                                            f"(the id in the report is not the finding's key)",
                                       {**replay_payload(job, fn), "observed": got, "expected": want})
     bad = core.eval_bad_indices(ctx, "c06_e2e", IMPORTS, "e2e_case", cases,
-                                ["e2e_model_ok", "e2e_sites_ok", "e2e_findings_ok", "e2e_discipline_ok"], chunk=60)
+                                ["e2e_model_ok", "e2e_sites_ok", "e2e_entries_ok", "e2e_discipline_ok"], chunk=60)
+    model_bad = set(bad["e2e_model_ok"])
     for i in bad["e2e_discipline_ok"]:
         job, fn, info, of = meta[i]
         ctx.count("e2e:discipline_false")
-        if job["scenario"] not in ("subsets", "empty_result_file"):
-            continue  # the same-line witnesses: the hypothesis is meant to fail there, the theorem predicts nothing
+        if job["scenario"] not in ("subsets", "empty_result_file") or any(s.get("wrapped") for s in info["sites"].values()):
+            continue  # same-line witnesses / a reported call nested in a call: the hypothesis fails, the theorem predicts nothing
         ctx.mismatch("span discipline (hypothesis of C06_subset_exact)",
                      f"{job['t'].id} {fn}: two candidate nodes of the generated program are not separated", replay_payload(job, fn))
     for i in bad["e2e_model_ok"]:
@@ -666,14 +719,15 @@ def run_e2e(ctx):
                      {**replay_payload(job, fn), "observed": of})
     for i in bad["e2e_sites_ok"]:
         job, fn, info, of = meta[i]
-        ctx.violation(classify_sites(job["t"], info, of),
+        ctx.violation(classify_sites(job["t"], info, of, i not in model_bad),
                       f"{job['t'].id} {fn}: sites reported S={info['expected']} but rewritten={of['rewritten']} (scenario {job['scenario']})",
                       {**replay_payload(job, fn), "observed": of, "expected": {"rewritten": info["expected"]}})
-    for i in bad["e2e_findings_ok"]:
+    for i in bad["e2e_entries_ok"]:
         job, fn, info, of = meta[i]
-        ctx.violation(classify_findings(job["t"], info, of, job["entries"], fn),
-                      f"{job['t'].id} {fn}: S={info['expected']} change entries {[(c[0], c[1]) for c in of['changes']]}: a rewritten site "
-                      f"must have an entry with exactly its own finding (scenario {job['scenario']})",
+        ctx.violation(classify_findings(job["t"], info, of, job["entries"], fn, i not in model_bad),
+                      f"{job['t'].id} {fn}: S={info['expected']} site lines {[info['sites'][k]['line'] for k in sorted(info['sites'])]} change "
+                      f"entries {[(c[0], c[1]) for c in of['changes']]}: every entry that carries findings must carry exactly one and sit "
+                      f"on the line of a rewritten site (one per site); every rewritten site must have one (scenario {job['scenario']})",
                       {**replay_payload(job, fn), "observed": of, "expected": "one finding per entry: the one reported for that site"})
     for job in jobs:
         shutil.rmtree(job["root"], ignore_errors=True)
